@@ -296,6 +296,14 @@ DIRECTED = [
      'a.xml', 'reject'),
     ('isar: name that is not an identifier', '--isar',
      {'a.xml': ISAR % '<struct name="a-b"><member name="x y" type="u8"/></struct>'}, 'a.xml', 'reject'),
+    ('isar: name ending in a line break', '--isar',
+     {'a.xml': ISAR % '<struct name="S"><member name="a&#10;" type="u8"/></struct><enum name="E"><enum-member name="E_A&#10;" value="1"/></enum>'}, 'a.xml', 'reject'),
+    ('included file named like a Python keyword', None,
+     {'global.prophy': 'struct G { u8 x; };\n', 'a.prophy': '#include "global.prophy"\nstruct C { G g; };\n'}, 'a.prophy', 'reject'),
+    ('file ending in a line comment without a newline, file starting with a byte order mark', None,
+     {'b.prophy': '\ufeffstruct B { u8 x; };\n', 'a.prophy': '#include "b.prophy"\nstruct C { B b; }; // the end'}, 'a.prophy', 'usable'),
+    ('file including another file of its own base name', None,
+     {'common/types.prophy': 'struct P { u64 p; };\n', 'types.prophy': '#include "common/types.prophy"\nstruct T { P p; };\n'}, 'types.prophy', 'reject'),
     ('isar: enumerator below -2^31', '--isar',
      {'a.xml': ISAR % '<enum name="E"><enum-member name="E_A" value="-4294967295"/></enum>'}, 'a.xml', 'reject'),
     ('isar: negative enumerator within 32 bits', '--isar',
@@ -361,6 +369,7 @@ def directed_case(root, k, opt, files, main):
     os.makedirs(d)
     python_only = bool(files.pop('__python_only__', None))
     for name, text in files.items():
+        os.makedirs(os.path.dirname(os.path.join(d, name)), exist_ok=True)
         with open(os.path.join(d, name), 'w') as f:
             f.write(text)
     out = os.path.join(d, 'out')
@@ -368,7 +377,7 @@ def directed_case(root, k, opt, files, main):
     if isinstance(opt, list):
         opt = [opt[0], os.path.join(d, opt[1])]
     args = (opt if isinstance(opt, list) else [opt] if opt else []) + ['-I', d, '--python_out', out] + ([] if python_only else ['--cpp_full_out', out, '--cpp_out', out])
-    sources = [n for n in files if not n.endswith('.patch')]
+    sources = [n for n in files if not n.endswith('.patch') and '/' not in n]
     leaves = [os.path.splitext(n)[0] for n in sources]
     try:
         for name in sources:
